@@ -207,7 +207,13 @@ func (RequestsScenario) GenCase(r *rand.Rand, prop string) interface{} {
 		case k < 88:
 			op.Payload = pick(r, "<empty>", "null", "{}")
 		default:
-			op.Payload = pick(r, "{bad", "[1,2]", "\"str\"", "{\"cid\":5}", "{\"query\":{}}", "12", "{\"isHttp\":\"yes\"}", "{\"params\":}")
+			// (the last two are well-formed JSON with one field of the wrong
+			// type next to a full set of others: whatever the decoder took
+			// from them before it failed must not show up in the request
+			// that is decoded next - seeded change C05u)
+			op.Payload = pick(r, "{bad", "[1,2]", "\"str\"", "{\"cid\":5}", "{\"query\":{}}", "12", "{\"isHttp\":\"yes\"}", "{\"params\":}",
+				`{"token":{"leak":1},"params":{"leak":2},"header":{"X-Leak":["1"]},"host":"leak.example","remoteAddr":"6.6.6.6","uri":"/leak","query":"leak=1","isHttp":true,"cid":5}`,
+				`{"cid":"leak","token":{"leak":3},"params":{"leak":4},"header":{"X-Leak":["2"]},"host":"leak.example","remoteAddr":"6.6.6.6","uri":"/leak","isHttp":true,"query":{}}`)
 		}
 		f, ok := model.ParseRequest(payloadBytes(op.Payload))
 		if ok && idFromQuery(f.Query) != id {
